@@ -208,6 +208,8 @@ pub const KEY_POOL: &[&str] = &[
     // keys that serialisation libraries reserve for their own private encodings
     "$serde_json::private::Number", "$serde_json::private::RawValue", "$__toml_private_datetime",
     "k,]", "key\\",
+    // identifiers padded with blanks (distinct from the plain names)
+    " a", "b ", "\tkey", "x\n", " ", "\n",
 ];
 
 pub fn any_key() -> BoxedStrategy<String> {
